@@ -18,7 +18,7 @@ CLAIMED = {
        'input, e.g. "</>" on the original tree); state-dispatch exhaustiveness; children attached only through the parent-linking operator; '
        'the encoder escapes every byte the decoder treats specially in text and double-quoted attribute values and the decoder\'s entity table '
        'inverts the names written; scratch buffer of character references holds the longest sequence. Tree equality after a round trip is not decided.',
-  technique='abstract interpretation of the decoder transition function (worklist fixpoint), exhaustiveness and single-writer queries, escape/entity table agreement over the resolved AST; per-byte emission table of the escaper by guard/argument evaluation (emit.py); a corpus of XML documents through the interpreted decoder machine with an open/text/close event log; literal-read bound rule (R-LITREAD) with a self-test fixture; counting loops over followed texts executed concretely; encoder's longest output from its interpreted body',
+  technique='abstract interpretation of the decoder transition function (worklist fixpoint), exhaustiveness and single-writer queries, escape/entity table agreement over the resolved AST; per-byte emission table of the escaper by guard/argument evaluation (emit.py); a corpus of XML documents through the interpreted decoder machine with an open/text/close event log; literal-read bound rule (R-LITREAD) with a self-test fixture; counting loops over followed texts executed concretely; longest output of the encoder from its interpreted body',
   ref='DESIGN.md section 3 C07'),
  'C06': dict(
   text='Abstract interpretation of the JSON/XDL parser loop over every reachable abstract configuration (state, previous state, comment flag, '
